@@ -19,6 +19,7 @@ func init() {
 	generators["health"] = genHealth
 	generators["health2"] = genHealth2
 	generators["multiterm"] = genMultiTerm
+	generators["yieldstop"] = genYieldStop
 }
 
 func anyLatency(r rng, h time.Duration) Latency {
@@ -71,6 +72,10 @@ func genLifecycle(r rng, k int) *Spec {
 		s.Insts[i].ValInterval = r.pickD(0, h, 2*h)
 		s.Insts[i].BlockPromote = r.chance(0.5)
 		s.Insts[i].DemoteDelay = r.pickD(0, 0, 50*ms)
+		if s.Insts[i].BlockPromote && r.chance(0.3) {
+			// a leader task that is slow to wind down keeps StopWithContext waiting
+			s.Insts[i].PromoteLinger = r.pickD(s.TTL/2, s.TTL+h, 2*s.TTL)
+		}
 	}
 	s.Lat = anyLatency(r, h)
 	s.Watch = randWatch(r)
@@ -551,6 +556,14 @@ func genHostile(r rng, k int) *Spec {
 			Action{After: time.Nanosecond, Kind: "validate", Inst: x, Val: "bg", OrDemote: r.chance(0.5)},
 			Action{After: ms, Kind: "waitbreak", Break: "vg", D: 2 * sec},
 			Action{After: time.Nanosecond, Kind: "output", Inst: "g0", Val: HostilePayload(r, r.IntN(HostileProductions), x, "stranger", "@OWNTOKEN@")},
+		)
+		if r.chance(0.6) {
+			// a second validation that begins after the change, while the first one's read
+			// (served before the change) is still held back
+			s.Actions = append(s.Actions, Action{After: r.pickD(time.Nanosecond, ms), Kind: "validate", Inst: x, Val: "bg", OrDemote: r.chance(0.3)},
+				Action{After: r.pickD(ms, 10*ms), Kind: "sample"})
+		}
+		s.Actions = append(s.Actions,
 			Action{After: r.pickD(time.Nanosecond, 5*ms), Kind: "release", Break: "vg"},
 		)
 	}
@@ -879,7 +892,7 @@ func genMultiTerm(r rng, k int) *Spec {
 		case 3:
 			s.Actions = append(s.Actions, Action{At: at, Kind: "restart", Inst: x, Stop: randStop(r)})
 		case 4:
-			s.Rules = append(s.Rules, FaultRule{Client: x, Op: "Update", From: at, To: at + r.dur(h, 6*h), Kind: r.pickS("err", "hang", "acklost"), Err: "timeout"})
+			s.Rules = append(s.Rules, FaultRule{Client: x, Op: r.pickS("Update", "Update", "Create"), From: at, To: at + r.dur(h, 6*h), Kind: r.pickS("err", "hang", "acklost"), Err: "timeout"})
 		case 5:
 			s.Actions = append(s.Actions, Action{At: at, Kind: "validate", Inst: x, Val: "bg", OrDemote: true})
 		case 6:
@@ -898,6 +911,88 @@ func genMultiTerm(r rng, k int) *Spec {
 	if r.chance(0.5) {
 		s.YieldP, s.YieldMax = 0.3, h/4
 	}
+	s.Sample = sampleFor(h)
+	return s
+}
+
+// ---------------------------------------------------------------------------
+// yieldstop: the stopping instance is parked at an in-library yield site (between
+// two non-store steps) while the stop call runs; benign otherwise (store latency
+// far below H/2, no faults): only the scheduling of the stopped instance is perturbed
+// ---------------------------------------------------------------------------
+
+type ysCell struct {
+	tmpl string
+	inst string
+	site string
+	nth  int
+}
+
+var ysCells = []ysCell{
+	{"leader2", "i0", "becomeLeaderEntry", 1},
+	{"succession", "i1", "becomeLeaderEntry", 2},
+	{"succession", "i1", "roundBeforeAttempt", 1},
+	{"follower", "i1", "periodicAfterLeaderTest", 1},
+	{"follower", "i1", "settleAsFollower", 1},
+	{"follower", "i1", "watchAfterLeaderTest", 1},
+	{"leader2", "i0", "heartbeatAfterRevLoad", 2},
+}
+
+// YieldStopTotal is the size of the full enumeration.
+func YieldStopTotal() int { return len(ysCells) * (len(spVariants()) + 2) * 3 }
+
+func genYieldStop(r rng, k int) *Spec {
+	vs := spVariants()
+	nv := len(vs) + 2
+	idx := (k * 7919) % YieldStopTotal()
+	cell := ysCells[idx%len(ysCells)]
+	idx /= len(ysCells)
+	vi := idx % nv
+	idx /= nv
+	delta := []time.Duration{0, 10 * ms, 1 * sec}[idx%3]
+	h := r.pickD(200*ms, 500*ms, 1*sec)
+	s := &Spec{TTL: time.Duration(r.pickI(3, 5)) * h, Benign: true, NoPreempt: true, Tags: []string{"lifecycle", "yieldstop", cell.tmpl, cell.site}}
+	s.Lat = Latency{Min: 2 * ms, Max: 10 * ms}
+	s.Watch = WatchPolicy{DelayMax: r.pickD(0, 20*ms)}
+	s.Insts = mkInsts(2, 1, h)
+	for i := range s.Insts {
+		s.Insts[i].BlockPromote = r.chance(0.5)
+	}
+	s.Breaks = []BreakSpec{{Name: "ys", Client: "*", Op: "yield:" + cell.site, Nth: cell.nth, Phase: "site", Armed: true}}
+	switch cell.tmpl {
+	case "leader2":
+		s.Actions = append(s.Actions, Action{At: 10 * ms, Kind: "start", Inst: "i0"}, Action{At: 300 * ms, Kind: "start", Inst: "i1"})
+	case "follower":
+		s.Actions = append(s.Actions, Action{At: 10 * ms, Kind: "start", Inst: "i0"}, Action{At: 1 * sec, Kind: "start", Inst: "i1"})
+	case "succession":
+		s.Actions = append(s.Actions, Action{At: 10 * ms, Kind: "start", Inst: "i0"}, Action{At: 500 * ms, Kind: "start", Inst: "i1"},
+			Action{At: 3 * sec, Kind: "stop", Inst: "i0", Stop: &StopVariant{DeleteKey: true}})
+	}
+	s.Actions = append(s.Actions, Action{After: ms, Kind: "waitbreak", Break: "ys", D: 12 * sec})
+	x := cell.inst
+	switch {
+	case vi < len(vs):
+		v := vs[vi]
+		s.Actions = append(s.Actions, Action{After: time.Nanosecond, Kind: "stop", Inst: x, Stop: &v})
+	case vi-len(vs) == spExtraTwice:
+		s.Actions = append(s.Actions, Action{After: time.Nanosecond, Kind: "stop", Inst: x, Stop: &StopVariant{Plain: true}},
+			Action{After: time.Nanosecond, Kind: "stop", Inst: x, Stop: &StopVariant{DeleteKey: true, Wait: true}})
+	default:
+		s.Actions = append(s.Actions, Action{After: time.Nanosecond, Kind: "restart", Inst: x, Stop: &StopVariant{Plain: true}})
+	}
+	// The parked goroutine is released shortly after the stop call was issued (a
+	// preemption-sized delay): tracked goroutines keep the stop call waiting meanwhile,
+	// untracked ones let it return first. Parking one goroutine for longer than the stop
+	// call's own wait would be a schedule the Go runtime cannot produce.
+	s.Actions = append(s.Actions,
+		Action{After: delta + time.Nanosecond, Kind: "release", Break: "ys"},
+		Action{After: ms, Kind: "waitapi", Inst: x, D: 7 * sec},
+	)
+	if vi >= len(vs) && vi-len(vs) != spExtraTwice {
+		// stop-then-start: the released goroutine legitimately continues in the new run
+		s.Benign = false
+	}
+	s.Duration = 9 * sec
 	s.Sample = sampleFor(h)
 	return s
 }
